@@ -118,6 +118,20 @@ func main() {
 			h = hash(h, j)
 			h = hash(h, int(r))
 		}
+		for j := range s { // index only: must advance exactly like the rune-binding form
+			h = hash(h, j+1000)
+		}
+		for j, _ := range s {
+			h = hash(h, j+2000)
+		}
+		nr := 0
+		for range s {
+			nr++
+		}
+		h = hash(h, nr)
+		for _, r := range s {
+			h = hash(h, int(r)+7)
+		}
 		rs := []rune(s)
 		h = hash(h, len(rs))
 		for _, r := range rs {
